@@ -9,7 +9,7 @@ mod verif_c06_squawk {
     use super::*;
     use crate::verif_spec::h::*;
 
-    //@ob id=C06.squawk.14 props=C06,C01 tier=quick kind=contract fns=adsb/squawk.rs:squawk,utils/ma_code.rs:ma_code draw=frame14
+    //@ob id=C06.squawk.14 props=C06,C01 tier=quick kind=contract fns=adsb/squawk.rs:squawk,utils/ma_code.rs:ma_code draw=frame14 replay=squawk
     //@region all short frames (all 8192 ID13 fields x every other bit): squawk == 1000A+100B+10C+D from C1 A1 C2 A2 C4 A4 X B1 D1 B2 D2 B4 D4
     #[kani::proof]
     #[kani::unwind(34)]
@@ -19,7 +19,7 @@ mod verif_c06_squawk {
         kani::cover!(true, "reach_end");
     }
 
-    //@ob id=C06.squawk.28 props=C06,C01 tier=quick kind=contract fns=adsb/squawk.rs:squawk,utils/ma_code.rs:ma_code draw=frame28
+    //@ob id=C06.squawk.28 props=C06,C01 tier=quick kind=contract fns=adsb/squawk.rs:squawk,utils/ma_code.rs:ma_code draw=frame28 replay=squawk
     //@region all long frames (DF21): same field, same decoding
     #[kani::proof]
     #[kani::unwind(34)]
